@@ -7,8 +7,12 @@
   termination proofs (`nameLoop` terminates by the lexicographic measure
   (remaining pointer budget, remaining bytes)), so "decoding always terminates — including on
   compression-pointer loops" is part of the model being well-defined.
+
+  The upstream side of the property (replies on every upstream transport: framing, the pipelined read
+  loop's hand-over, the one-at-a-time connection's id check, the DoH body limit) is in Props/C01Up.lean.
 -/
 import MosVerif.Lemmas.WireSafe
+import MosVerif.Props.C01Up
 namespace MosVerif.C01
 open MosVerif.Wire
 
